@@ -30,7 +30,7 @@ from .c03 import gen_cdda_model
 PROP = "C11"
 LEVEL = "exploration"
 RUNS = {"quick": 1150, "thorough": 60000}
-TIME_CAP = {"quick": 400, "thorough": 1500}
+TIME_CAP = {"quick": 400, "thorough": 900}
 CHUNK = 4          # runs per worker task (cost-aware: keeps the time cap responsive)
 RULE = ("one SimFile + one image object (AKAI, AKAI inside 2352-byte sectors, Roland, CDDA) with 2-6 clients (T transcoder iterators, "
         "R raw readers, D lazy directory listings, X foreign cursor moves) stepped by a seeded scheduler for up to 400 steps; preceded by a "
